@@ -593,6 +593,29 @@ def upper_bound(fn, op, depth=12):
     return best
 
 
+def _ub_from_facts(fn, op, at_bb):
+    """upper bound of a single-assignment unsigned local from comparisons against constants on edges dominating at_bb"""
+    if const_int(op) is not None:
+        return const_int(op)
+    sym = canon(fn, op)
+    if not sym or sym[0] != "l" or len(fn.defs.get(sym[1], ())) > 1:
+        return None
+    tk = fn.local_ty(sym[1])["k"]
+    if not (tk and tk.startswith("u")):
+        return None
+    best = None
+    for (sb, tb, cop, x, y) in _cmp_facts(fn):
+        cx, cy = canon(fn, x), canon(fn, y)
+        ub = None
+        if cx == sym and cy and cy[0] == "c":
+            ub = {"Lt": cy[1] - 1, "Le": cy[1], "Eq": cy[1]}.get(cop)
+        elif cy == sym and cx and cx[0] == "c":
+            ub = {"Gt": cx[1] - 1, "Ge": cx[1], "Eq": cx[1]}.get(cop)
+        if ub is not None and ub >= 0 and edge_dominates(fn, sb, tb, at_bb):
+            best = ub if best is None else min(best, ub)
+    return best
+
+
 def g_const(fn, edge):
     t = edge.term
     msg = t["msg"]
@@ -627,6 +650,11 @@ def g_const(fn, edge):
     if msg.startswith("Overflow(Add)") or msg.startswith("Overflow(Mul)"):
         a = upper_bound(fn, ops[0]) if ops else None
         b = upper_bound(fn, ops[1]) if len(ops) > 1 else None
+        # tighten with comparisons whose edge dominates the operation:  `if n >= LIMIT { return }; n + 1`
+        fa = _ub_from_facts(fn, ops[0], edge.bb) if ops else None
+        fb = _ub_from_facts(fn, ops[1], edge.bb) if len(ops) > 1 else None
+        a = fa if a is None else (a if fa is None else min(a, fa))
+        b = fb if b is None else (b if fb is None else min(b, fb))
         wk = operand_ty_kind(fn, ops[0]) or (operand_ty_kind(fn, ops[1]) if len(ops) > 1 else None)
         mx = INT_MAX.get(wk)
         if a is not None and b is not None and mx is not None:
